@@ -34,6 +34,7 @@ import copy
 import json
 import multiprocessing
 import os
+import time
 
 import core
 import c19_repo as R
@@ -188,14 +189,20 @@ def run(ctx):
 
 
 def _run(ctx, quick, flavs, pool):
+    phase = ctx.extra.setdefault("phase_wall_s", {})
+    t0 = time.time()
     # 1. emission: every terminal behaviour of the closed model, with TLC's terminal state
     emit_cfg = _cfg("MC_UpdateFile_emit_quick.cfg" if quick else "MC_UpdateFile_emit.cfg", FlavourSets=tla_set(flavs))
     r_emit = ctx.tlc_must_hold("UpdateFile", emit_cfg, workers=1, want_tags={"CASE"})
-    cases = r_emit.printed.get("CASE", [])
+    uniq = {}
+    for c in r_emit.printed.get("CASE", []):
+        uniq.setdefault(json.dumps(c, sort_keys=True), c)
+    cases = list(uniq.values())
+    phase["emission"] = round(time.time() - t0, 1)
     if not cases:
         raise core.MachineryError("UpdateFile emitted no CASE lines")
     cases.sort(key=lambda c: json.dumps(c["in"], sort_keys=True) + c["pc"] + str(len(c["path"])))
-    nvar = 1 if quick else (3 if len(cases) < 20000 else 2)
+    nvar = 1 if quick else (2 if len(cases) < 20000 else 1)
     tasks = []
     for idx, c in enumerate(cases):
         vs = ["canonical"] + ["random%d" % j for j in range(nvar)]
@@ -206,28 +213,33 @@ def _run(ctx, quick, flavs, pool):
     opts = {"maxlen": 6, "diff_e": not quick}
     chunks = [tasks[i:i + 40] for i in range(0, len(tasks), 40)]
     replay_async = pool.map_async(R.replay_chunk, [(ctx.work, ctx.seed, ch, opts) for ch in chunks], chunksize=1)
-    ntr = 300 if quick else 4000
+    ntr = 300 if quick else 3000
     topts = {"flavour_sets": flavs, "diff_e": not quick}
     tchunks = [list(range(i, min(ntr, i + 25))) for i in range(0, ntr, 25)]
     trace_async = pool.map_async(R.record_chunk, [(ctx.work, ctx.seed, ch, topts) for ch in tchunks], chunksize=1)
 
     # 2. design level (independent of /repo), while the pool replays; the TLC processes run side by side
-    def negs():
-        out = {}
-        for mode, inv in NEG_CONTROLS:
-            r = ctx.tlc("UpdateFile", neg_cfg(mode, inv, 1 if quick else 2), workers=1, count=False)
-            if r.violated != inv:
-                raise core.MachineryError("negative control Mode=%s: expected %s to fail, TLC says %r" % (mode, inv, r.violated))
-            out[mode] = inv
-        return out
+    def neg(mode, inv):
+        r = ctx.tlc("UpdateFile", neg_cfg(mode, inv, 1 if quick else 2), workers=1, count=False)
+        if r.violated != inv:
+            raise core.MachineryError("negative control Mode=%s: expected %s to fail, TLC says %r" % (mode, inv, r.violated))
+        return inv
     from concurrent.futures import ThreadPoolExecutor
-    with ThreadPoolExecutor(3) as ex:
-        f_main = ex.submit(ctx.tlc_must_hold, "UpdateFile", "MC_UpdateFile.cfg", workers=4 if quick else 8)
-        f_live = ex.submit(ctx.tlc_must_hold, "UpdateFile",
-                           _cfg("MC_UpdateFile_live.cfg", MaxN=2) if quick else "MC_UpdateFile_live.cfg", workers=2)
-        f_neg = ex.submit(negs)
-        r_main, r_live, neg = f_main.result(), f_live.result(), f_neg.result()
-    ctx.extra["model"] = {"closed_config": {"MaxN": 3, "Sizes": [0, 2], "FlavourSets": ALL_FLAVOURS,
+    controls = NEG_CONTROLS[:2] if quick else NEG_CONTROLS      # quick: two of the four
+    t1 = time.time()
+    with ThreadPoolExecutor(3 + len(controls)) as ex:
+        f_main = ex.submit(ctx.tlc_must_hold, "UpdateFile", "MC_UpdateFile_quick.cfg" if quick else "MC_UpdateFile.cfg",
+                           workers=4 if quick else 8, count=False)
+        # termination: quick = part of the emission run (<= 3 versions), thorough = <= 4 versions
+        f_live = None if quick else ex.submit(ctx.tlc_must_hold, "UpdateFile", "MC_UpdateFile_live.cfg", workers=2, count=False)
+        f_neg = {mode: ex.submit(neg, mode, inv) for mode, inv in controls}
+        r_main, r_live = f_main.result(), (f_live.result() if f_live else r_emit)
+        neg = {mode: f.result() for mode, f in f_neg.items()}
+    phase["design_tlc"] = round(time.time() - t1, 1)
+    for r in ((r_main,) if quick else (r_main, r_live)):          # counted here, not in the threads
+        ctx.states += r.distinct
+        ctx.transitions += r.generated
+    ctx.extra["model"] = {"closed_config": {"MaxN": 3, "Sizes": [0, 2], "FlavourSets": [["SHA1", "SHA256"]] if quick else ALL_FLAVOURS,
                                             "states": r_main.distinct, "depth": r_main.depth},
                           "termination_states": r_live.distinct,
                           "emission": {"MaxN": 2 if quick else 3, "Sizes": [0, 2] if quick else [0, 1, 3],
@@ -235,7 +247,9 @@ def _run(ctx, quick, flavs, pool):
     ctx.extra["spec_negative_controls_failed_as_required"] = neg
 
     # 3. spec -> code: collect the replays
+    t2 = time.time()
     results = [x for ch in replay_async.get() for x in ch]
+    phase["wait_for_replays_after_design"] = round(time.time() - t2, 1)
     results.sort(key=lambda x: (x["idx"], x["variant"]))
     per_action, per_fault, outcomes, excs, status_n = {}, {}, {}, {}, {}
     for c in cases:
@@ -286,7 +300,10 @@ def _run(ctx, quick, flavs, pool):
     traces.sort(key=lambda x: x[0])
     idxs = [i for i, _ in traces]
     traces = [t for _, t in traces]
+    phase["wait_for_traces"] = round(time.time() - t2, 1)
+    t3 = time.time()
     bad, drift, info = validate(ctx, traces)
+    phase["trace_validation"] = round(time.time() - t3, 1)
     ctx.traces += len(results) + len(traces)
     for i in range(len(traces)):
         ctx.case_seen(("trace", idxs[i]), True)
@@ -321,6 +338,12 @@ def _run(ctx, quick, flavs, pool):
     ctx.extra["traces_recorded"] = len(traces)
     ctx.extra["traces_rejected"] = len(bad)
     ctx.extra["traces_with_step_drift"] = len(drift)
+    ev_n = {}
+    for t in traces:
+        for e in t["events"]:
+            ev_n[e["a"]] = ev_n.get(e["a"], 0) + 1
+    ctx.extra["observed_steps_per_action_in_traces"] = ev_n
+    ctx.extra["traces_by_outcome"] = {o: sum(1 for t in traces if t["out"]["pc"] == o) for o in ("returned", "raised")}
     ctx.extra["traces_by_injection"] = {m: sum(1 for t in traces if t["inject"] == m) for m in ("none", "wrap", "rlimit")}
 
 
